@@ -948,8 +948,8 @@ class UniformGrid(_HyperRectangleGrid):
                 " is a diagonal matrix."
             )
 
-        # Calculate step-size of the cube.
-        step_sizes = np.array([np.linalg.norm(axis) for axis in self.axes])
+        # Calculate (signed) step-size of the cube: a diagonal entry of `axes` may be negative.
+        step_sizes = np.diagonal(self.axes)
         coord = np.array([(point[i] - self.origin[i]) / step_sizes[i] for i in range(self.ndim)])
 
         if which == "origin":
@@ -961,6 +961,8 @@ class UniformGrid(_HyperRectangleGrid):
         else:
             raise ValueError("`which` parameter was not the standard options.")
 
+        # A point outside of the grid is closest to a node on the boundary of the grid.
+        coord = np.clip(coord, 0, np.array(self.shape) - 1).astype(int)
         # Convert indices (i, j, k) into index.
         index = self.coordinates_to_index(coord)
 
